@@ -45,7 +45,8 @@ def _gen_thread(rw: Any, tid: int, cfg: Dict[str, Any], shape_seed: Optional[int
             host = ["hf_add1"]
         bound = bool(host) and rw.random() < 0.85  # sometimes the name is called but not bound
         text = gen.gen_expr(er, decls, salt=text_salt, depth=er.choice([1, 2, 2, 3, 3, 4]),
-                            invalid_share=0.02, host=host, deep_share=cfg["deep_share"])
+                            invalid_share=0.02, host=host, deep_share=cfg["deep_share"],
+                            features=cfg["features"])
         ops.append({"op": "K", "id": p, "env": 0, "text": text, "host": host})
         fspec = None
         if host and bound:
@@ -84,6 +85,8 @@ def generate(seed: int, tier: str = "quick") -> Dict[str, Any]:
         "host_variants": rc.random() < 0.6,
         "pre": rc.choice([None, None, "I", "C", "same"]),
         "deep_share": rc.choice([0.0, 0.0, 0.0, 0.3, 0.6]),
+        # constructs featured in every thread's expressions of this workload (swarm testing)
+        "features": rc.sample(sorted(gen.FEATURES), rc.choice([0, 0, 1, 1, 2])),
     }
     shape_seed = kit.H(wseed, "shape") if (cfg["same_shape"] or cfg["same_text"]) else None
     threads = []
